@@ -109,7 +109,7 @@ def runChk (s : St) (ws : List String) : String :=
     if us.any (fun m => !m.hasRoot) then
       s!"{head} clause=b judge=ok corr=- n1={us.length} n2={rs.length} mode={mode}{kind} skipped=rootless"
     else
-    let ok := judgeB keep us rs
+    let ok := judgeB keep (if mode == "w" then emptyAtEnd rng else fun _ => false) us rs
     s!"{head} clause=b judge={verdict ok s!"range-{mode}{kind} expected={exp.length} got={rs.length}"} corr=- n1={us.length} n2={rs.length} mode={mode}{kind} wild={s.wild}"
   | ["c", a, b] =>
     if isMStream s a || isMStream s b then
@@ -127,11 +127,11 @@ def runChk (s : St) (ws : List String) : String :=
       s!"{head} clause=d judge={verdict (judgeDc x y (ex == "1")) s!"silent-drop-captures limit={k}"} corr=- n1={x.length} n2={y.length} exceeded={ex} limit={k}"
   | ["e", u, e, pos] =>
     let x := getC s u; let y := getC s e
-    s!"{head} clause=e judge={verdict (judgeE x y (natOf pos)) "remove-match"} corr=- n1={x.length} n2={y.length}"
+    s!"{head} clause=e judge={verdict (judgeE x y (natOf pos)) "remove-match"} corr=- n1={x.length} n2={y.length} wild={s.wild}"
   | ["g", u, d, depth] =>
     let x := getM s u; let y := getM s d
     let full := decide ((x.filter fun m => decide (m.depth ≤ natOf depth)).map Match.key = y.map Match.key)
-    s!"{head} clause=g judge={verdict (judgeG x y (natOf depth)) "start-depth"} corr=- n1={x.length} n2={y.length} complete={full}"
+    s!"{head} clause=g judge={verdict (judgeG x y (natOf depth)) "start-depth"} corr=- n1={x.length} n2={y.length} complete={full} wild={s.wild}"
   | ["f", u, p] =>
     let x := getM s u; let y := getM s p
     let ok := judgeF miniRegex s.preds s.text x y
